@@ -76,6 +76,12 @@ def gen_db(rng):
                     counter[0] += 1
                 used_ids.append(eid)
                 exs[eid] = {'v': counter[0], 'nested': {'l': [counter[0]]}}
+                if rng.random() < 0.06:
+                    # a description dumped from another database: the examples
+                    # still carry the fields get_dataset() adds (stale values)
+                    exs[eid]['dataset'] = 'stale_name'
+                    if rng.random() < 0.5:
+                        exs[eid]['example_id'] = 'stale_id'
             datasets[name] = exs
         parts.append({'datasets': datasets})
     # aliases (may live in any part, also only in a later one)
